@@ -173,7 +173,7 @@ class Engine:
                 self.rsolver.add(x >= 0)
             self.lin.fresh_nonneg = []
 
-    STRENGTHEN_TAGS = ('sqrt', 'inv', 'let', 'promoted')
+    STRENGTHEN_TAGS = ('sqrt', 'inv', 'promoted')
 
     def _strengthen(self, monos, rounds=2, maxdeg=6):
         """add goal-directed products of the *definitional* hypotheses (sqrt / inverse / let / promoted zeros) to the
@@ -457,6 +457,8 @@ class Engine:
         s = S(s)
         if s.is_const() or (s.u is None and len(s.t) == 1 and pdeg1(s.t)):
             return s
+        if s.is_zero():
+            return s
         if s.u is None:
             x = self.sym(f'{name}{len(VARS)}', 'real', 'aux')
             self.hyps.append(psub(x.t, s.t)); self.hyp_tags.append('let')
@@ -539,6 +541,7 @@ def explore(fn, acc=None, root=None, cut_depth=None, max_paths=None, max_decisio
     roots = []
     while True:
         poly.reset_vars()
+        poly.ABSTRACT[0] = None
         eng = Engine(prefix, rootlen, cut_depth, max_decisions=max_decisions)
         _CUR[0] = eng
         t0 = time.time()
